@@ -30,6 +30,8 @@ func c13Scenarios(tier string) []runner.Job {
 		job(tr(sim.Rel2Cfg("c13-rel2-k3-events", 3, 0, 1, fBld|fRel|fRet|fRelX|fBNew|fReset, 0), true), pick(tier, 5, 6), 2),
 		job(tr(sim.CoreCfg("c13-core-k4-cap1", 4, 1, nil, fMove|fBNew|fBExch|fBRem|fReg|fReset, 0), true), pick(tier, 4, 6), 2),
 		job(tr(sim.RelCfg("c13-rel-k5-2p-life", 0, 5, 2, 8, fBld|fMove|fRet|fBRem|fReset|fReg, 0), false), pick(tier, 6, 8), 2),
+		job(tr(sim.RichRelCfg("c13-rich-two-nodes-registered", 2, true, fMove|fRet|fBRem|fBSet|fReset, 0), false), pick(tier, 4, 5), 2),
+		job(tr(sim.RichRelCfg("c13-rich-two-nodes-events", 1, false, fMove|fRet|fBRem|fBExch|fReg|fQ, 0), true), pick(tier, 3, 4), 1),
 	}
 	for i := range js {
 		js[i].CheckEveryReplay = true
